@@ -171,6 +171,12 @@ def run(ctx):
             part = np.concatenate([part, nb, [0.0, 1.0]])
             for h in names:
                 H[h].hedge(part)
+                # the ends of the scale as they really arrive: negative zero (a membership of -0.0 is a degree of 0), the
+                # smallest positive doubles, the neighbours of 1
+                for v in (-0.0, 5e-324, 2.2e-308, 1e-300, math.nextafter(1.0, 0.0)):
+                    H[h].hedge(v)
+                H[h].hedge(np.array([-0.0, 0.0, 5e-324, 1.0]))
+                ctx.hit("workload:ends of the scale (negative zero, subnormals)")
                 H[h].hedge(part.reshape(1, -1))
                 for v in part[:: max(1, part.size // 16)]:
                     H[h].hedge(float(v))
@@ -220,13 +226,30 @@ def run(ctx):
                     if not np.array_equal(np.asarray(r1), keep) and h != "any":
                         ctx.violation(f"{h}: a returned result changes when the argument array is later modified (aliases its argument)", {"hedge": h}, keep, r1)
                 hedge.hedge(buf)
+        # a hedge given as a plain Python function of one degree: an array is either refused or handled element by element
+        for i, rnd in ctx.cases("lambda", ctx.scale(300, 4000)):
+            f, name = rnd.choice([(lambda x: min(1, 2 * x), "min(1, 2x)"), (lambda x: x * x if x < 0.5 else x, "x^2 below 1/2"), (lambda x: math.sqrt(x), "math.sqrt"), (lambda x: 1 if x > 0.5 else 0, "step")])
+            hedge = fl.HedgeLambda("custom", f)
+            xs = [rnd.choice([1.0, 0.0, 0.75, 0.25, 0.1, rnd.random()]) for _ in range(rnd.choice([1, 4, 6]))]
+            for arg in (xs[0], np.array(xs), np.array(xs).reshape(1, -1), list(xs)):
+                ctx.evaluated()
+                try:
+                    got = np.asarray(hedge.hedge(arg), dtype=float)
+                except Exception:
+                    ctx.hit("lambda hedge: argument refused")
+                    continue
+                want = np.array([f(v) for v in np.asarray(arg, dtype=float).ravel()], dtype=float).reshape(np.shape(arg))
+                ctx.hit("lambda hedge: evaluated")
+                # (the shape of the result is the function's own business for a single value; the values are not)
+                if got.size != want.size or not np.allclose(got.ravel(), want.ravel(), rtol=0, atol=1e-15):
+                    ctx.violation("a hedge given as a Python function is not applied element by element", {"function": name, "x": arg}, want, got)
         mon.check_relations()
         probe.report(ctx)
         reach.report(ctx)
     ctx.exhaustive = True
     ctx.extra["exhaustive_space"] = f"all x = k/2^{m}, k = 0..2^{m}, for each of the 6 hedges (plus non-exhaustive random doubles)"
     for h in names:
-        ctx.require(f"hook:{CLASSES[h]}.hedge", "event:buffer refilled in place", "layout:transposed", "layout:read-only row broadcast over a batch")
+        ctx.require(f"hook:{CLASSES[h]}.hedge", "event:buffer refilled in place", "layout:transposed", "layout:read-only row broadcast over a batch", "workload:ends of the scale (negative zero, subnormals)", "lambda hedge: evaluated")
     for h in ("extremely", "seldom"):
         for p in ("x<0.5", "x==0.5", "x>0.5"):
             ctx.require(f"piece:{h}:{p}")
